@@ -91,7 +91,7 @@ def spaces(tier):
         if not q:
             for si in range(len(CDR3_SEEDS)):
                 yield ("family", si, 2, "ACSG", 2)
-                yield ("family", si, 2, "ACSG", 3)
+            yield ("family", len(CDR3_SEEDS) - 1, 2, "ACSG", 3)      # k=3 on the two-edit ball only around the 3-residue seed (cost)
 
     return [
         Space("all-pairs-of-universe", gen_allpairs, "whole universe U(alphabet,L) as one list, fwd and reversed order: %s x k in 1..4 (thorough: 1..3, and k=4 on the quick universes), k=L+1; thorough also U(AC,10), U(ACD,7) x k in 1..2" % uni, per_case=True),
